@@ -3,6 +3,7 @@ package props
 import (
 	"bytes"
 	"encoding/base64"
+	"encoding/hex"
 	"encoding/json"
 	"fmt"
 	"io"
@@ -58,6 +59,7 @@ func containerView(r container.Reader) string {
 var ioTokenSpecs = map[string]TokSpec{
 	"dlg":  {Kind: "dlg", Alg: "ed25519", Opts: map[string]string{"pol": "eq", "nonce": "12", "meta": "k=str-ascii"}},
 	"inv":  {Kind: "inv", Alg: "ed25519", Opts: map[string]string{"args": "k=int1", "nonce": "12", "iat": "whole"}},
+	"dlg3": {Kind: "dlg", Alg: "ed25519", Key: 1, Opts: map[string]string{"nonce": "64", "sub": "other", "cmd": "/a/b"}},
 	"dlg2": {Kind: "dlg", Alg: "p256", Opts: map[string]string{"nonce": "12", "sub": "other"}},
 	"inv2": {Kind: "inv", Alg: "secp256k1", Opts: map[string]string{"nonce": "12", "iat": "none", "prf": "3"}},
 }
@@ -148,7 +150,7 @@ func ioArtefacts() []ioArtefact {
 		r = append(r, ioArtefact{Name: n + "-json", Format: "json", Data: t.JSON}.fix(n))
 	}
 	for _, f := range []string{"cbor", "car", "cbor64", "car64"} {
-		r = append(r, buildContainer(f, []string{"dlg", "inv", "dlg2"}))
+		r = append(r, buildContainer(f, []string{"dlg", "inv", "dlg3"}))
 		r = append(r, buildContainer(f, []string{"dlg"}))
 	}
 	r = append(r, buildContainer("car", nil), buildContainer("cbor", nil))
@@ -272,6 +274,7 @@ func carPrefixExpected(a ioArtefact, cut int) (string, bool) {
 }
 
 type c18ReadCase struct {
+	ArtHex string `json:"artefact_hex,omitempty"` // witnesses carry the artefact bytes (container block order follows Go map iteration)
 	Art    string `json:"artefact"`
 	API    string `json:"api"`
 	Mode   string `json:"mode"`             // chunking | pos-error | pos-eof | env
@@ -338,6 +341,12 @@ func c18ReadSub() *engine.Sub {
 			cs := c.(*c18ReadCase)
 			setup(ctx.Tier)
 			a, api := artByName[cs.Art], apiByName[cs.API]
+			if cs.ArtHex != "" {
+				a.Data, _ = hex.DecodeString(cs.ArtHex)
+				if a.Format == "car" {
+					a.Boundaries = carBoundaries(a.Data)
+				}
+			}
 			want, werr := api.Buffered(a.Data)
 			if werr != nil {
 				ctx.Failf(cs, "buffered-api-fails/"+api.Name, "the byte-slice variant of %s fails on %s, which its own writer produced: %v", api.Name, a.Name, werr)
@@ -379,7 +388,7 @@ func c18ReadSub() *engine.Sub {
 						ctx.Eval(1)
 						ctx.Trans(1)
 						ctx.Nontrivial(1)
-						rc := &c18ReadCase{Art: cs.Art, API: cs.API, Mode: cs.Mode, At: k}
+						rc := &c18ReadCase{Art: cs.Art, API: cs.API, Mode: cs.Mode, At: k, ArtHex: hex.EncodeToString(a.Data)}
 						if err != nil {
 							ctx.Outcome("fault-reported")
 							continue
@@ -450,7 +459,7 @@ func c18Judge(ctx *engine.Ctx, cs *c18ReadCase, a ioArtefact, api readerAPI, env
 	if dev > 0 {
 		ctx.Nontrivial(1)
 	}
-	rc := &c18ReadCase{Art: cs.Art, API: cs.API, Mode: "env", Prefix: append([]int{}, env.Taken...)}
+	rc := &c18ReadCase{Art: cs.Art, API: cs.API, Mode: "env", Prefix: append([]int{}, env.Taken...), ArtHex: hex.EncodeToString(a.Data)}
 	faulty := r.InjectedError || r.EarlyEOFAt >= 0
 	tag := api.Name
 	switch {
@@ -520,7 +529,7 @@ func writerAPIs() []writerAPI {
 				Buffered: func() ([]byte, string, error) { b, err := tw.ToDagJson(key); return b, "", err }},
 		)
 	}
-	for _, names := range [][]string{{"dlg"}, {"dlg", "inv", "dlg2"}, {}} {
+	for _, names := range [][]string{{"dlg"}, {"dlg", "inv", "dlg3"}, {}} {
 		w := container.NewWriter()
 		for _, n := range names {
 			t := ioToken(n)
